@@ -21,6 +21,7 @@ machine-word overflow, safety inside realfft/rustfft.
 import RubatoProofs.Async.FixedIn
 import RubatoProofs.Async.FixedOut
 import RubatoProofs.Fft.Control
+import RubatoProofs.Async.FixedInHistory
 
 set_option linter.unusedSectionVars false
 set_option linter.unusedVariables false
@@ -169,5 +170,31 @@ theorem osf1_panics {s : AState ℚ ℚ} (hk : s.kind.isSinc = true) (hn : s.ip.
     (hs : s.sint = .cubic ∨ s.sint = .quadratic) (bufLen : ℕ) (p : ℚ) :
     posFault s bufLen p = some (.panic "get_sinc_interpolated") :=
   FixedOut.sinc_factor_one_faults hk hn hs bufLen p
+
+end Rubato.C03
+
+namespace Rubato.C03
+open Rubato
+
+/-! ### fixed-input types, whole histories at constant ratio (lifted in RubatoProofs/Async/FixedInHistory.lean) -/
+
+/-- **FastFixedIn / SincFixedIn at constant ratio**: from an accepted constructor call, after ANY list of operations
+(processing calls with arbitrary — valid or malformed — arguments, set_chunk_size with any argument, reset), a call with
+a mask of the right length and buffers of the advertised sizes returns `Ok`, consumes exactly `input_frames_next()`,
+writes at most `output_frames_next() ≤ output_frames_max()` frames, reads only supplied data, and a malformed call
+returns `Err`; a panic or an out-of-range access is unreachable. -/
+theorem fixedIn_constant_ratio_never_crashes {kind : AKind} (hk : kind = .fastIn ∨ kind = .sincIn) {ratio maxRel : ℚ}
+    {deg : Degree} {sint : SincInterp} {ip : Interp ℚ} {chunk nch : ℕ} {s0 : AState ℚ ℚ}
+    (hL : kind = .sincIn → 3 ≤ ip.len) (hn : kind = .sincIn → 1 ≤ ip.nbr)
+    (hn2 : kind = .sincIn → sint = .cubic ∨ sint = .quadratic → 2 ≤ ip.nbr)
+    (hm : outNextIn chunk ratio ratio ≤ idleFuel)
+    (h : AState.init kind ratio maxRel deg sint ip chunk nch = .ok s0) (ops : List FixedInHistory.OpC)
+    (a : CallArgs ℚ) :
+    let s := ops.foldl FixedInHistory.OpC.apply s0
+    (FixedInHistory.ValidCall s a → ∃ out, (s.process a).2 = .ok out ∧ out.nIn = s.inputFramesNext ∧
+        out.nOut ≤ s.outputFramesNext ∧ s.outputFramesNext ≤ s.outputFramesMax ∧ out.stale = false ∧
+        FixedInHistory.GoodIn (s.process a).1) ∧
+    (¬ FixedInHistory.ValidCall s a → ∃ e, (s.process a).2 = .err e) :=
+  FixedInHistory.fixedIn_constant_ratio_safe hk hL hn hn2 hm h ops a
 
 end Rubato.C03
